@@ -1,7 +1,16 @@
 import FinamModel.SchedLemmas
+import FinamModel.Props.C04
 /-!
   C02 — the driver follows least-advanced-first and updates only what is needed.
-  (placeholder: theorems are added below as they are proved)
+
+  * `select_least`: the component the run loop starts from is a time-stepped component of minimal
+    time, the first such in the listing (stable sort, element 0);
+  * `updateRec_chain`: whatever `_update_recursive` ends up updating is reached from the selected
+    component along a chain of dependencies each of which *lags* (the source output is behind what
+    the dependant demands for its announced pull, through pull-based components too);
+  * `findDeps_mem_link`: every recorded dependency stems from a non-static link whose requirement
+    (delays accumulated, `walk_eq_need`) is exactly the recorded time;
+  * `walk_eq_need`: the checked time equals the time actually demanded of the source.
 -/
 namespace Finam.Props.C02
 open Finam
@@ -10,5 +19,383 @@ open Finam
     adapters add up -/
 theorem walk_eq_need (dp : DP) (ads : List Ad) (t : Int) : walk dp ads t false = need dp ads t :=
   Finam.walk_eq_need dp ads t
+
+/-! ### what `_find_dependencies` records -/
+
+theorem depsInsert_mem_cases {deps : List (Nat × Int)} {o : Nat} {t : Int} {p : Nat × Int}
+    (h : p ∈ depsInsert deps o t) : p ∈ deps ∨ p = (o, t) := by
+  induction deps with
+  | nil => simp [depsInsert] at h; exact Or.inr h
+  | cons q r ih =>
+    obtain ⟨o', t'⟩ := q
+    simp only [depsInsert] at h
+    by_cases ho : o' = o
+    · simp only [ho, if_true] at h
+      subst ho
+      rcases List.mem_cons.mp h with h' | h'
+      · by_cases ht : t > t'
+        · simp only [ht, if_true] at h'; exact Or.inr h'
+        · simp only [ht, if_false] at h'; subst h'; exact Or.inl List.mem_cons_self
+      · exact Or.inl (List.mem_cons_of_mem _ h')
+    · simp only [ho, if_false] at h
+      cases h with
+      | head => exact Or.inl List.mem_cons_self
+      | tail _ h' =>
+        rcases ih h' with h'' | h''
+        · exact Or.inl (List.mem_cons_of_mem _ h'')
+        · exact Or.inr h''
+
+/-- the condition under which `_find_dependencies` skips a link: the source belongs to a
+    time-stepped component and is not behind the required time -/
+def upToDate (s : State) (o : Nat) (lt : Int) : Prop :=
+  (s.comp (s.out o).owner).isTime = true ∧ ¬ (s.out o).time < lt
+
+/-- **Every recorded dependency is a real requirement**: an entry `(o, lt)` of the dependency
+    dictionary comes from a non-static link of the component to output `o` whose requirement for
+    the target time — with the delays of all delay adapters on the link accumulated — is exactly
+    `lt`, and whose source was not found up to date. -/
+theorem findDeps_mem_link (s : State) (c : Nat) (target : Int) (o : Nat) (lt : Int)
+    (h : (o, lt) ∈ findDeps s c target) :
+    ∃ l ∈ (s.comp c).inputs, l.static = false ∧ l.src = o ∧ need s.dp l.ads target = some lt ∧
+      ¬ upToDate s o lt := by
+  unfold findDeps at h
+  simp only [Finam.walk_eq_need] at h
+  generalize hall : (s.comp c).inputs = all at h ⊢
+  suffices H : ∀ (ls : List Link) (acc : List (Nat × Int)),
+      (∀ p ∈ acc, ∃ l ∈ all, l.static = false ∧ l.src = p.1 ∧ need s.dp l.ads target = some p.2 ∧ ¬ upToDate s p.1 p.2) →
+      (∀ l ∈ ls, l ∈ all) →
+      ∀ p ∈ ls.foldl (fun deps l =>
+        if l.static then deps else
+        match need s.dp l.ads target with
+        | none => deps
+        | some lt =>
+          let o := s.out l.src
+          if (s.comp o.owner).isTime && !(o.time < lt) then deps else depsInsert deps l.src lt) acc,
+        ∃ l ∈ all, l.static = false ∧ l.src = p.1 ∧ need s.dp l.ads target = some p.2 ∧ ¬ upToDate s p.1 p.2 by
+    exact H all [] (by simp) (fun l hl => hl) (o, lt) h
+  intro ls
+  induction ls with
+  | nil => intro acc hacc _ p hp; exact hacc p hp
+  | cons x xs ih =>
+    intro acc hacc hsub p hp
+    simp only [List.foldl_cons] at hp
+    refine ih _ ?_ (fun l hl => hsub l (List.mem_cons_of_mem _ hl)) p hp
+    intro q hq
+    by_cases hst : x.static = true
+    · simp only [hst, if_true] at hq; exact hacc q hq
+    · simp only [hst] at hq
+      cases hn : need s.dp x.ads target with
+      | none => simp only [hn] at hq; exact hacc q hq
+      | some ltx =>
+        simp only [hn] at hq
+        by_cases hc : ((s.comp (s.out x.src).owner).isTime && !decide ((s.out x.src).time < ltx)) = true
+        · simp only [hc, if_true] at hq; exact hacc q hq
+        · simp only [hc] at hq
+          rcases depsInsert_mem_cases hq with h1 | h1
+          · exact hacc q h1
+          · subst h1
+            refine ⟨x, hsub x List.mem_cons_self, by simpa using hst, rfl, hn, ?_⟩
+            intro hu
+            apply hc
+            simp only [Bool.and_eq_true, Bool.not_eq_true', decide_eq_false_iff_not]
+            exact hu
+
+/-! ### only what is needed: the updated component lies on a chain of lagging dependencies -/
+
+theorem updateRec_chain_aux (s : State) : ∀ (fuel : Nat),
+    (∀ c chain tgt u, updateRec s fuel c chain tgt = .ok (some u) → ∃ t', C04.Star s (c, tgt) (u, t')) ∧
+    (∀ c tgt chain deps u, (∀ p ∈ deps, p ∈ findDeps s c (C04.targetOf s c tgt)) →
+        depsLoop s fuel (c :: chain) deps = .ok (some u) →
+        ∃ c' tgt' t', C04.Edge s (c, tgt) (c', tgt') ∧ C04.Star s (c', tgt') (u, t')) := by
+  intro fuel
+  induction fuel with
+  | zero =>
+    constructor
+    · intro c chain tgt u h; simp [updateRec] at h
+    · intro c tgt chain deps
+      induction deps with
+      | nil => intro u _ h; simp [depsLoop] at h
+      | cons p ps ih =>
+        intro u hsub h
+        obtain ⟨o, lt⟩ := p
+        simp only [depsLoop] at h
+        split at h
+        · split at h
+          · simp [updateRec] at h
+          · exact ih u (fun q hq => hsub q (List.mem_cons_of_mem _ hq)) h
+        · simp [updateRec] at h
+  | succ n ihn =>
+    obtain ⟨ihU, ihL⟩ := ihn
+    have hU : ∀ c chain tgt u, updateRec s (n+1) c chain tgt = .ok (some u) → ∃ t', C04.Star s (c, tgt) (u, t') := by
+      intro c chain tgt u h
+      simp only [updateRec] at h
+      split at h
+      · cases h
+      · split at h
+        · cases h
+        · rename_i u' hloop
+          cases h
+          obtain ⟨c', tgt', t', hedge, hstar⟩ := ihL c tgt chain _ u (fun p hp => hp) hloop
+          exact ⟨t', .step hedge hstar⟩
+        · split at h
+          · split at h
+            · cases h
+            · cases h; exact ⟨tgt, .refl _⟩
+          · cases h
+    refine ⟨hU, ?_⟩
+    intro c tgt chain deps
+    induction deps with
+    | nil => intro u _ h; simp [depsLoop] at h
+    | cons p ps ih =>
+      intro u hsub h
+      obtain ⟨o, lt⟩ := p
+      have hmem : (o, lt) ∈ findDeps s c (C04.targetOf s c tgt) := hsub _ (by simp)
+      have hrest : ∀ q ∈ ps, q ∈ findDeps s c (C04.targetOf s c tgt) := fun q hq => hsub q (List.mem_cons_of_mem _ hq)
+      simp only [depsLoop] at h
+      split at h
+      · rename_i hT
+        split at h
+        · rename_i hlag
+          obtain ⟨t', hs⟩ := hU _ _ _ _ h
+          exact ⟨_, _, t', .time c tgt o lt hmem hT hlag, hs⟩
+        · exact ih u hrest h
+      · rename_i hP
+        split at h
+        · cases h
+        · rename_i u' he
+          cases h
+          obtain ⟨t', hs⟩ := hU _ _ _ _ he
+          exact ⟨_, _, t', .pull c tgt o lt hmem (by simpa using hP), hs⟩
+        · exact ih u hrest h
+
+/-- **Only what is needed.** The component that `_update_recursive` ends up updating is reached from
+    the component it was called for along a chain of `Edge`s: each step goes from a component to the
+    owner of an output that is recorded by `_find_dependencies` for the dependant's announced pull and
+    either lags behind the required time (time-stepped owner) or is pull-based and explored for the
+    propagated time.  Nothing off such a chain is ever advanced, whatever its position in the list. -/
+theorem updateRec_chain (s : State) (fuel : Nat) (c : Nat) (chain : List Nat) (tgt : Option Int) (u : Nat)
+    (h : updateRec s fuel c chain tgt = .ok (some u)) : ∃ t', C04.Star s (c, tgt) (u, t') :=
+  (updateRec_chain_aux s fuel).1 c chain tgt u h
+
+/-! ### least advanced first -/
+
+/-- one step of the scan, case by case -/
+theorem selectAux_cons_pull (c : Comp) (cs : List Comp) (i : Nat) (best : Option (Nat × Int))
+    (hk : c.kind = .pull) : selectAux (c :: cs) i best = selectAux cs (i+1) best := by
+  simp only [selectAux, hk]
+
+theorem selectAux_cons_none (c : Comp) (cs : List Comp) (i : Nat) (nw nx : Int) (f : Bool)
+    (hk : c.kind = .time nw nx f) : selectAux (c :: cs) i none = selectAux cs (i+1) (some (i, nw)) := by
+  simp only [selectAux, hk]
+
+theorem selectAux_cons_lt (c : Comp) (cs : List Comp) (i : Nat) (nw nx : Int) (f : Bool) (bi : Nat) (bt : Int)
+    (hk : c.kind = .time nw nx f) (hlt : nw < bt) :
+    selectAux (c :: cs) i (some (bi, bt)) = selectAux cs (i+1) (some (i, nw)) := by
+  simp only [selectAux, hk, hlt, if_true]
+
+theorem selectAux_cons_ge (c : Comp) (cs : List Comp) (i : Nat) (nw nx : Int) (f : Bool) (bi : Nat) (bt : Int)
+    (hk : c.kind = .time nw nx f) (hlt : ¬ nw < bt) :
+    selectAux (c :: cs) i (some (bi, bt)) = selectAux cs (i+1) (some (bi, bt)) := by
+  simp only [selectAux, hk, hlt, if_false]
+
+/-- the result of the scan is the incoming best or comes from the scanned list -/
+theorem selectAux_origin : ∀ (cs : List Comp) (i : Nat) (best : Option (Nat × Int)) (x : Nat × Int),
+    selectAux cs i best = some x →
+    best = some x ∨ ∃ (j : Nat) (c : Comp) (nx : Int) (f : Bool), cs[j]? = some c ∧ c.kind = .time x.2 nx f ∧ x.1 = i + j := by
+  intro cs
+  induction cs with
+  | nil => intro i best x h; exact Or.inl h
+  | cons c cs ih =>
+    intro i best x h
+    have lift : (∃ (j : Nat) (c' : Comp) (nx : Int) (f : Bool), cs[j]? = some c' ∧ c'.kind = .time x.2 nx f ∧ x.1 = i + 1 + j) →
+        ∃ (j : Nat) (c' : Comp) (nx : Int) (f : Bool), (c :: cs)[j]? = some c' ∧ c'.kind = .time x.2 nx f ∧ x.1 = i + j := by
+      rintro ⟨j, c', nx, f, hj, hkc, hi⟩
+      exact ⟨j+1, c', nx, f, by simpa using hj, hkc, by omega⟩
+    cases hk : c.kind with
+    | pull =>
+      rw [selectAux_cons_pull c cs i best hk] at h
+      rcases ih _ _ _ h with h' | h'
+      · exact Or.inl h'
+      · exact Or.inr (lift h')
+    | time nw nx f =>
+      cases best with
+      | none =>
+        rw [selectAux_cons_none c cs i nw nx f hk] at h
+        rcases ih _ _ _ h with h' | h'
+        · cases h'; exact Or.inr ⟨0, c, nx, f, by simp, hk, by simp⟩
+        · exact Or.inr (lift h')
+      | some bp =>
+        obtain ⟨bi, bt⟩ := bp
+        by_cases hlt : nw < bt
+        · rw [selectAux_cons_lt c cs i nw nx f bi bt hk hlt] at h
+          rcases ih _ _ _ h with h' | h'
+          · cases h'; exact Or.inr ⟨0, c, nx, f, by simp, hk, by simp⟩
+          · exact Or.inr (lift h')
+        · rw [selectAux_cons_ge c cs i nw nx f bi bt hk hlt] at h
+          rcases ih _ _ _ h with h' | h'
+          · exact Or.inl h'
+          · exact Or.inr (lift h')
+
+/-- the result of the scan is not later than the incoming best nor than any scanned time component -/
+theorem selectAux_min : ∀ (cs : List Comp) (i : Nat) (best : Option (Nat × Int)) (x : Nat × Int),
+    selectAux cs i best = some x →
+    (∀ b, best = some b → x.2 ≤ b.2) ∧
+    (∀ c ∈ cs, ∀ (nw nx : Int) (f : Bool), c.kind = .time nw nx f → x.2 ≤ nw) := by
+  intro cs
+  induction cs with
+  | nil =>
+    intro i best x h
+    refine ⟨fun b hb => ?_, fun c hc => by cases hc⟩
+    simp only [selectAux] at h; rw [hb] at h; cases h; exact Int.le_refl _
+  | cons c cs ih =>
+    intro i best x h
+    cases hk : c.kind with
+    | pull =>
+      rw [selectAux_cons_pull c cs i best hk] at h
+      obtain ⟨h1, h2⟩ := ih _ _ _ h
+      refine ⟨h1, ?_⟩
+      intro c' hc' nw nx f hkc
+      rcases List.mem_cons.mp hc' with e | e
+      · subst e; rw [hk] at hkc; cases hkc
+      · exact h2 c' e nw nx f hkc
+    | time nw nx f =>
+      cases best with
+      | none =>
+        rw [selectAux_cons_none c cs i nw nx f hk] at h
+        obtain ⟨h1, h2⟩ := ih _ _ _ h
+        refine ⟨fun b hb => (by cases hb), ?_⟩
+        intro c' hc' nw' nx' f' hkc
+        rcases List.mem_cons.mp hc' with e | e
+        · subst e; rw [hk] at hkc; cases hkc; exact h1 (i, nw) rfl
+        · exact h2 c' e nw' nx' f' hkc
+      | some bp =>
+        obtain ⟨bi, bt⟩ := bp
+        by_cases hlt : nw < bt
+        · rw [selectAux_cons_lt c cs i nw nx f bi bt hk hlt] at h
+          obtain ⟨h1, h2⟩ := ih _ _ _ h
+          have h0 : x.2 ≤ nw := h1 (i, nw) rfl
+          refine ⟨fun b hb => by cases hb; show x.2 ≤ bt; omega, ?_⟩
+          intro c' hc' nw' nx' f' hkc
+          rcases List.mem_cons.mp hc' with e | e
+          · subst e; rw [hk] at hkc; cases hkc; exact h0
+          · exact h2 c' e nw' nx' f' hkc
+        · rw [selectAux_cons_ge c cs i nw nx f bi bt hk hlt] at h
+          obtain ⟨h1, h2⟩ := ih _ _ _ h
+          have h0 : x.2 ≤ bt := h1 (bi, bt) rfl
+          refine ⟨h1, ?_⟩
+          intro c' hc' nw' nx' f' hkc
+          rcases List.mem_cons.mp hc' with e | e
+          · subst e; rw [hk] at hkc; cases hkc; omega
+          · exact h2 c' e nw' nx' f' hkc
+
+/-- among equally advanced candidates the earliest in the list wins (Python's `sort` is stable) -/
+theorem selectAux_first : ∀ (cs : List Comp) (i : Nat) (best : Option (Nat × Int)) (x : Nat × Int),
+    selectAux cs i best = some x → (∀ b, best = some b → b.1 < i) →
+    (∀ b, best = some b → x.2 = b.2 → x = b) ∧
+    (∀ (j : Nat) (c : Comp) (nx : Int) (f : Bool), cs[j]? = some c → c.kind = .time x.2 nx f → x.1 ≤ i + j) := by
+  intro cs
+  induction cs with
+  | nil =>
+    intro i best x h _
+    refine ⟨fun b hb _ => ?_, fun j c nx f hj => by simp at hj⟩
+    simp only [selectAux] at h; rw [hb] at h; cases h; rfl
+  | cons c cs ih =>
+    intro i best x h hb
+    cases hk : c.kind with
+    | pull =>
+      rw [selectAux_cons_pull c cs i best hk] at h
+      obtain ⟨h1, h2⟩ := ih _ _ _ h (fun b hb' => by have := hb b hb'; omega)
+      refine ⟨h1, ?_⟩
+      intro j c' nx f hj hkc
+      cases j with
+      | zero => simp at hj; subst hj; rw [hk] at hkc; cases hkc
+      | succ j => have := h2 j c' nx f (by simpa using hj) hkc; omega
+    | time nw nx f =>
+      cases best with
+      | none =>
+        rw [selectAux_cons_none c cs i nw nx f hk] at h
+        obtain ⟨h1, h2⟩ := ih _ _ _ h (fun b hb' => by cases hb'; show i < i + 1; omega)
+        refine ⟨fun b hb' => (by cases hb'), ?_⟩
+        intro j c' nx' f' hj hkc
+        cases j with
+        | zero =>
+          simp at hj; subst hj; rw [hk] at hkc; cases hkc
+          have := h1 (i, x.2) rfl rfl
+          rw [this]; show i ≤ i + 0; omega
+        | succ j => have := h2 j c' nx' f' (by simpa using hj) hkc; omega
+      | some bp =>
+        obtain ⟨bi, bt⟩ := bp
+        by_cases hlt : nw < bt
+        · rw [selectAux_cons_lt c cs i nw nx f bi bt hk hlt] at h
+          obtain ⟨h1, h2⟩ := ih _ _ _ h (fun b hb' => by cases hb'; show i < i + 1; omega)
+          have hmin : x.2 ≤ nw := (selectAux_min cs (i+1) (some (i, nw)) x h).1 (i, nw) rfl
+          refine ⟨fun b hb' e => by cases hb'; have : x.2 = bt := e; omega, ?_⟩
+          intro j c' nx' f' hj hkc
+          cases j with
+          | zero =>
+            simp at hj; subst hj; rw [hk] at hkc; cases hkc
+            have := h1 (i, x.2) rfl rfl
+            rw [this]; show i ≤ i + 0; omega
+          | succ j => have := h2 j c' nx' f' (by simpa using hj) hkc; omega
+        · rw [selectAux_cons_ge c cs i nw nx f bi bt hk hlt] at h
+          have hbi : bi < i := hb (bi, bt) rfl
+          obtain ⟨h1, h2⟩ := ih _ _ _ h (fun b hb' => by cases hb'; show bi < i + 1; omega)
+          refine ⟨h1, ?_⟩
+          intro j c' nx' f' hj hkc
+          cases j with
+          | zero =>
+            simp at hj; subst hj; rw [hk] at hkc; cases hkc
+            have hmin : x.2 ≤ bt := (selectAux_min cs (i+1) (some (bi, bt)) x h).1 (bi, bt) rfl
+            have hxb : x.2 = bt := by omega
+            have := h1 (bi, bt) rfl hxb
+            rw [this]; show bi ≤ i + 0; omega
+          | succ j => have := h2 j c' nx' f' (by simpa using hj) hkc; omega
+
+/-- **Least advanced first.** The component the run loop hands to `_update_recursive` is a
+    time-stepped component, no time-stepped component of the composition is further back, and among
+    the equally advanced ones it is the first in the listing. -/
+theorem select_least (s : State) (h : Nat) (hs : select s = some h) :
+    h < s.comps.length ∧ (s.comp h).isTime = true ∧
+    (∀ c, c < s.comps.length → (s.comp c).isTime = true → getNow (s.comp h) ≤ getNow (s.comp c)) ∧
+    (∀ c, c < h → (s.comp c).isTime = true → getNow (s.comp h) < getNow (s.comp c)) := by
+  simp only [select, Option.map_eq_some_iff] at hs
+  obtain ⟨x, hx, hxh⟩ := hs
+  subst hxh
+  have horig := selectAux_origin s.comps 0 none x hx
+  have hmin := (selectAux_min s.comps 0 none x hx).2
+  have hfirst := (selectAux_first s.comps 0 none x hx (fun b hb => by cases hb)).2
+  rcases horig with h' | ⟨j, c, nx, f, hj, hkc, hi⟩
+  · cases h'
+  · have hjlt : j < s.comps.length := by
+      rcases Nat.lt_or_ge j s.comps.length with h | h
+      · exact h
+      · rw [List.getElem?_eq_none h] at hj; cases hj
+    have hx1 : x.1 = j := by omega
+    have hcomp : s.comp x.1 = c := by
+      simp only [State.comp, List.getD_eq_getElem?_getD, hx1, hj, Option.getD_some]
+    have hnow : getNow (s.comp x.1) = x.2 := by rw [hcomp]; simp [getNow, hkc]
+    have hget : ∀ c', c' < s.comps.length → s.comps[c']? = some (s.comp c') := by
+      intro c' hc'
+      simp only [State.comp, List.getD_eq_getElem?_getD, List.getElem?_eq_getElem hc', Option.getD_some]
+    refine ⟨by omega, by rw [hcomp]; simp [Comp.isTime, hkc], ?_, ?_⟩
+    · intro c' hc' hT
+      cases hk : (s.comp c').kind with
+      | pull => simp [Comp.isTime, hk] at hT
+      | time nw nx' f' =>
+        have := hmin (s.comp c') (List.mem_of_getElem? (hget c' hc')) nw nx' f' hk
+        rw [hnow]; simp only [getNow, hk]; exact this
+    · intro c' hc' hT
+      have hc'lt : c' < s.comps.length := by omega
+      cases hk : (s.comp c').kind with
+      | pull => simp [Comp.isTime, hk] at hT
+      | time nw nx' f' =>
+        have h1 := hmin (s.comp c') (List.mem_of_getElem? (hget c' hc'lt)) nw nx' f' hk
+        rw [hnow]; simp only [getNow, hk]
+        by_cases hlt : x.2 < nw
+        · exact hlt
+        · have heq : nw = x.2 := by omega
+          subst heq
+          have := hfirst c' (s.comp c') nx' f' (hget c' hc'lt) hk
+          omega
 
 end Finam.Props.C02
